@@ -385,6 +385,7 @@ func RunGoldenScenario(t *testing.T, sc *Scenario) *World {
 // the independent-encoder / independent-layer monitors for the rest of the budget.
 func RunGoldenShard(t *testing.T, env *ShardEnv) *ShardReport {
 	rep := newShardReport(env.Prop, "golden", env.Shard, env.Tier, env.Seed)
+	liveReport = rep
 	start := time.Now()
 	files, _ := filepath.Glob(filepath.Join(goldenDir(), "img-*.json"))
 	sort.Strings(files)
